@@ -33,6 +33,9 @@ func init() {
 			{ID: "R19h", Floor: 1, Doc: "CLI flag lineage: a subcommand defines no flag whose name or alias an enclosing command already defines (urfave/cli resolves c.String(name) innermost-first, so the shadowing default silently overrides `car index --codec=X create`)", Run: ruleR19h},
 			{ID: "R19i", Floor: 1, Doc: "the commands agree on parser limits: no command of the CLI lowers MaxAllowedSectionSize/MaxAllowedHeaderSize for itself (what index/filter emit and verify accepts, inspect must accept)", Run: ruleR19i},
 			{ID: "R19j", Floor: 1, Doc: "line-oriented input of the CLI: data returned by bufio ReadString/ReadBytes together with io.EOF (an unterminated last line) is not dropped", Run: ruleR19j},
+			{ID: "R19k", Floor: 1, Doc: "car verify rejects an index offset only when it lies inside the payload (`<` the data end): an offset beyond the data end is what UseIndexPadding produces and must be accepted", Run: ruleR19k},
+			{ID: "R19m", Floor: 1, Doc: "car filter always finalizes the archive it opened for writing: once blockstore.OpenReadWrite has succeeded (which, on --append, has already dropped the old index and zeroed the header), success is only the result of Finalize", Run: ruleR19m},
+			{ID: "R19n", Floor: 1, Doc: "car verify accepts what the library's index means: an index entry is looked up by multihash, so verify never rejects an entry because the section's whole CID differs from the key (no Cid.Equals in VerifyCar)", Run: ruleR19n},
 			{ID: "R19g", Floor: 1, Doc: "car verify applies its index-placement check only to archives whose header claims an index", Run: ruleR19g},
 			{ID: "R19e", Floor: 2, Doc: "get-dag: link-visit-once derives from !IsSet(selector)", Run: ruleR19e},
 		},
@@ -924,4 +927,88 @@ func ruleR19j(c *Ctx, r *Report) {
 	if n == 0 {
 		r.Hold("eof-line@cmd/car", "-", "no ReadString/ReadBytes in the CLI (line input goes through ReadLine, which returns the last line before io.EOF)")
 	}
+}
+
+func ruleR19k(c *Ctx, r *Report) {
+	fn, err := c.Func(pkgCmdLib, "", "VerifyCar")
+	if err != nil {
+		r.InfraFail("%v", err)
+		return
+	}
+	key := "index-padding-accepted@" + fnKey(fn)
+	isIO := func(v ssa.Value) bool { return loadsField(canon(v), modV2, "Header", "IndexOffset") }
+	notConst := func(v ssa.Value) bool { _, isK := constInt(v); return !isK && !isIO(v) }
+	bad := ""
+	n := 0
+	for _, want := range []string{"gt", "ge"} {
+		for _, e := range cmpEdges(fn, isIO, notConst, want) {
+			n++
+			// the outcome leads straight (no further test) to an error return
+			b := e.From.Succs[e.Succ]
+			for i := 0; i < 4 && b != nil; i++ {
+				last := b.Instrs[len(b.Instrs)-1]
+				if ret, ok := last.(*ssa.Return); ok {
+					if !resultIsNilConst(ret, len(ret.Results)-1) {
+						bad = fmt.Sprintf("verify fails at %s when the index offset is beyond the end of the data: that gap is the index padding (UseIndexPadding), and such files are what the library writes", c.Pos(ret.Pos()))
+					}
+					break
+				}
+				if _, ok := last.(*ssa.Jump); ok && len(b.Succs) == 1 {
+					b = b.Succs[0]
+					continue
+				}
+				break
+			}
+		}
+	}
+	lt := cmpEdges(fn, isIO, notConst, "lt")
+	if len(lt) == 0 && bad == "" {
+		r.Undec(key, c.Pos(fn.Pos()), "no comparison of Header.IndexOffset with the data end found")
+		return
+	}
+	r.Check(bad == "", key, c.Pos(fn.Pos()), "IndexOffset is only rejected when below the data end", bad)
+}
+
+func ruleR19m(c *Ctx, r *Report) {
+	fn, err := c.Func(pkgCmdLib, "", "FilterCar")
+	if err != nil {
+		r.InfraFail("%v", err)
+		return
+	}
+	key := "filter-finalizes@" + fnKey(fn)
+	opens := callsToFunc(fn, pkgBS, "", "OpenReadWrite")
+	if len(opens) != 1 {
+		r.Undec(key, c.Pos(fn.Pos()), "expected one blockstore.OpenReadWrite")
+		return
+	}
+	okE := condEdges(fn, errNilCond(errOfCall(opens[0]), true))
+	bad := ""
+	for _, e := range okE {
+		rs := reachFromEdge(fn, e, nil)
+		for _, ret := range returnsOf(fn) {
+			if rs[ret.Block()] && resultIsNilConst(ret, len(ret.Results)-1) {
+				bad = fmt.Sprintf("after the output was opened for writing, the return at %s reports success without Finalize: on --append the old index and header are already gone, so the file is left unreadable", c.Pos(ret.Pos()))
+			}
+		}
+	}
+	if len(okE) == 0 {
+		bad = "the error of blockstore.OpenReadWrite is not tested"
+	}
+	r.Check(bad == "", key, c.Pos(opens[0].Pos()), "success after OpenReadWrite is only the result of Finalize", bad)
+}
+
+func ruleR19n(c *Ctx, r *Report) {
+	fn, err := c.Func(pkgCmdLib, "", "VerifyCar")
+	if err != nil {
+		r.InfraFail("%v", err)
+		return
+	}
+	key := "verify-by-multihash@" + fnKey(fn)
+	bad := ""
+	for _, g := range withAnon(fn) {
+		for _, ci := range callsToFunc(g, pkgCid, "Cid", "Equals") {
+			bad = fmt.Sprintf("VerifyCar compares whole CIDs at %s: an index is keyed by multihash, so the entry found for a CID may rightly be the section of another CID over the same bytes, and a valid `car index` output is rejected", c.Pos(ci.Pos()))
+		}
+	}
+	r.Check(bad == "", key, c.Pos(fn.Pos()), "no whole-CID comparison in verify", bad)
 }
